@@ -343,6 +343,10 @@ func (s *search) classify(m *mworld, i, actBefore int, last op, obs string, acct
 }
 
 func (s *search) spec() vk.Spec {
+	mc := mergeCheckEvery
+	if s.mode == 2 {
+		mc = 0 // flat mode: what each instance has cached decides what it sees of the shared database (copy-leak)
+	}
 	return vk.Spec{
 		Name:   s.name,
 		NumOps: len(s.ops),
@@ -356,7 +360,7 @@ func (s *search) spec() vk.Spec {
 			}
 			return m.enabled(s.ops[o])
 		},
-		MergeCheckEvery: mergeCheckEvery,
+		MergeCheckEvery: mc,
 	}
 }
 
